@@ -21,10 +21,11 @@ func (c *Cluster) Drive(budget time.Duration, allow func(r *Rpc) bool, until fun
 				}
 				if r.Phase == phReq {
 					c.Net.Deliver(r)
+					c.Settle("deliver")
 				} else {
 					c.Net.Reply(r)
+					c.Settle("net")
 				}
-				c.Settle("net")
 				progressed = true
 				if until != nil && until() {
 					return true
@@ -172,5 +173,131 @@ func famFigure8(t *testing.T, seed int64, steps int) *Cluster {
 	}
 	c.healAll()
 	c.converge(500 * time.Millisecond)
+	return c
+}
+
+// famCfgTrunc stages: an isolated leader appends a membership change that never commits; the others elect a
+// leader whose first entry lands on the SAME index; the partition heals and the old leader truncates exactly
+// at its latest configuration entry; later it leads again and changes the membership.
+func famCfgTrunc(t *testing.T, seed int64, steps int) *Cluster {
+	opt := DefaultOptions(seed)
+	opt.Family = "cfgtrunc"
+	opt.Servers = []string{"n1", "n2", "n3", "n4"}
+	opt.Initial = map[string]string{"n1": "V", "n2": "V", "n3": "V", "n4": "N"}
+	c := NewCluster(t, opt)
+	c.Bootstrap()
+	c.StartAll()
+	A := c.WaitLeader(2 * time.Second)
+	if A == "" {
+		return c
+	}
+	c.RunQuiet(40*time.Millisecond, 5*time.Millisecond)
+	c.isolate(A)
+	cmds := []string{"addvoter", "demote", "remove", "addvoter"}
+	cmd := cmds[int(seed)%len(cmds)]
+	tgt := "n4"
+	if cmd == "demote" || cmd == "remove" {
+		for _, id := range []string{"n1", "n2", "n3"} {
+			if id != A {
+				tgt = id
+				break
+			}
+		}
+	}
+	c.Member(A, cmd, tgt, 0, 0)
+	c.Settle("client")
+	c.dropPendingFrom(A)
+	// the others elect a leader; its no-op takes the index of A's configuration entry
+	c.Drive(4*time.Second, nil, func() bool {
+		l := c.Leader()
+		return l != "" && l != A && c.byID[l].Raft.CommitIndex() >= c.byID[l].Raft.LastIndex()
+	})
+	c.healAll()
+	c.Drive(600*time.Millisecond, nil, nil)
+	// hand leadership back to A and change the membership again
+	if l := c.Leader(); l != "" && l != A {
+		c.Transfer(l, A)
+		c.Settle("client")
+		c.Drive(2*time.Second, nil, func() bool { return c.Leader() == A })
+	}
+	if c.Leader() == A {
+		c.Member(A, "remove", map[bool]string{true: "n2", false: "n3"}[A != "n2" && seed%2 == 0], 0, 0)
+		c.Settle("client")
+		c.Drive(500*time.Millisecond, nil, nil)
+		c.Verify(A)
+		c.Settle("client")
+		c.Drive(200*time.Millisecond, nil, nil)
+	}
+	c.convergeNoExpect(400 * time.Millisecond)
+	return c
+}
+
+// famSnapCfgRace stages a snapshot that is requested while the FSM goroutine is busy and a membership change
+// commits meanwhile; afterwards the server restarts from that snapshot (C10, C11).
+func famSnapCfgRace(t *testing.T, seed int64, steps int) *Cluster {
+	opt := DefaultOptions(seed)
+	opt.Family = "snapcfgrace"
+	opt.Servers = []string{"n1", "n2", "n3", "n4"}
+	opt.Initial = map[string]string{"n1": "V", "n2": "V", "n3": "V", "n4": "N"}
+	opt.SnapThresh = 1000 // only the snapshot asked for below
+	opt.Trailing = uint64(seed % 2)
+	c := NewCluster(t, opt)
+	c.Bootstrap()
+	c.StartAll()
+	L := c.WaitLeader(2 * time.Second)
+	if L == "" {
+		return c
+	}
+	for i := 0; i < 2+int(seed%3); i++ {
+		c.Apply(L, 0)
+		c.Settle("client")
+	}
+	c.Drive(100*time.Millisecond, nil, nil)
+	if c.Leader() != L {
+		return c
+	}
+	ln := c.byID[L]
+	ln.FSM.SetGated(true)
+	c.Apply(L, 0)
+	c.Settle("client")
+	c.Drive(300*time.Millisecond, nil, func() bool { return ln.FSM.Waiting() > 0 }) // the FSM goroutine is inside Apply
+	c.UserSnapshot(L)
+	c.Settle("client")
+	cmds := []string{"addvoter", "demote", "remove", "addvoter"}
+	cmd := cmds[int(seed/2)%len(cmds)]
+	tgt := "n4"
+	if cmd != "addvoter" {
+		for _, id := range []string{"n1", "n2", "n3"} {
+			if id != L {
+				tgt = id
+				break
+			}
+		}
+	}
+	mop := c.Member(L, cmd, tgt, 0, 0)
+	c.Settle("client")
+	c.Drive(600*time.Millisecond, nil, func() bool { return mop.Done })
+	if seed%3 == 0 {
+		c.Apply(L, 0)
+		c.Settle("client")
+		c.Drive(100*time.Millisecond, nil, nil)
+	}
+	// let the FSM goroutine go on, one call at a time
+	for i := 0; i < 12; i++ {
+		ln.FSM.Release(1)
+		c.Settle("fsm")
+		c.Drive(20*time.Millisecond, nil, nil)
+	}
+	ln.FSM.SetGated(false)
+	c.Settle("fsm")
+	c.Drive(300*time.Millisecond, nil, nil)
+	// restart the server: it must come back with the configuration it had durably recorded
+	if ln.Up {
+		c.Crash(L)
+		c.Drive(50*time.Millisecond, nil, nil)
+		c.Start(L)
+		c.Settle("restart")
+	}
+	c.convergeNoExpect(500 * time.Millisecond)
 	return c
 }
